@@ -92,6 +92,11 @@ pub const A_ARECV_NEW: u8 = 35;
 pub const A_CONVERT_S: u8 = 36; // to_async().to_sync() round trip of handle h
 pub const A_CONVERT_R: u8 = 37;
 pub const A_OBSERVE: u8 = 38; // read every observer through sender handle h: len in .tag, flags/counts in .aux
+/// Pre-state generalisation (not an API call): advance the ring position of the (empty) waiting list /
+/// buffer by `d` places, so that later entries wrap around the end of the allocation.  Any history of
+/// `d` served waiters / delivered values leaves the ring in this position.
+pub const A_ROT_W: u8 = 39;
+pub const A_ROT_Q: u8 = 40;
 
 #[derive(Clone, Copy)]
 pub struct Act {
@@ -195,6 +200,8 @@ pub struct Abs {
     pub send_count: u32,
     pub recv_count: u32,
     pub capacity: usize,
+    /// owners of the channel state (Arc strong count), the probe included
+    pub strong: usize,
 }
 
 impl<T: Payload + 'static> Ctx<T> {
@@ -259,6 +266,7 @@ impl<T: Payload + 'static> Ctx<T> {
             send_count: g.send_count,
             recv_count: g.recv_count,
             capacity: g.capacity,
+            strong: ::std::sync::Arc::strong_count(self.probe.as_ref().unwrap()),
         }
     }
 
@@ -567,6 +575,30 @@ pub unsafe fn exec<T: Payload + 'static>(cx: *mut Ctx<T>, a: Act) -> Res {
                 tag: len as u8,
                 aux,
             }
+        }
+        A_ROT_W => {
+            let mut g = acquire_internal((*cx).probe.as_ref().unwrap());
+            assert!(g.wait_list.is_empty(), "harness: ring rotation needs an empty waiting list");
+            let mut i = 0;
+            while i < a.d {
+                g.wait_list.push_back(crate::signal::SignalTerminator::from(core::ptr::null::<crate::signal::Signal<T>>()));
+                let x = g.wait_list.pop_front();
+                core::mem::forget(x);
+                i += 1;
+            }
+            RES0
+        }
+        A_ROT_Q => {
+            let mut g = acquire_internal((*cx).probe.as_ref().unwrap());
+            assert!(g.queue.is_empty(), "harness: ring rotation needs an empty buffer");
+            let mut i = 0;
+            while i < a.d && core::mem::size_of::<T>() > 0 {
+                g.queue.push_back(core::mem::zeroed::<T>());
+                let x = g.queue.pop_front();
+                core::mem::forget(x);
+                i += 1;
+            }
+            RES0
         }
         A_CONVERT_S => {
             let x = (*cx).s[h].take().unwrap();
